@@ -954,7 +954,14 @@ fn run_hist(c: &HCase) -> R {
         "range-cursor" => {
             let framed = [&[0xEEu8; 3][..], &data[..], &[0xDD, 0xDD][..]].concat();
             let mut i = must(RangeReader::new_and_seek(Cursor::new(framed), 3, data.len() as u64), "construct", "range")?;
-            run_history(&mut i, &data, &c.ops, &tag, true)?
+            let first = run_history(&mut i, &data, &c.ops, &tag, true)?;
+            // the same reader again after reset(): a second pass over the range behaves like the first one (and still
+            // ends at the end of the range, not at the end of the stream behind it)
+            must(i.reset(), "construct", "range/reset")?;
+            ensure!(i.remaining() == data.len() as u64 && i.current_position() == i.start_position(), "consumed", format!("{tag}/after-reset/position"), "after reset(): current_position() = {}, remaining() = {} for a range of {} bytes starting at {}", i.current_position(), i.remaining(), data.len(), i.start_position());
+            let second = run_history(&mut i, &data, &c.ops, &format!("{tag}/after-reset"), true)?;
+            ensure!(first == second, "consumed", format!("{tag}/after-reset/outcome"), "first pass {first}, second pass after reset() {second}");
+            first
         }
         "reader-streambuf[2]" => {
             let r = must(StreamBufferedReader::with_config(Cursor::new(data.clone()), small_cfg(2)), "construct", "streambuf")?;
